@@ -277,3 +277,15 @@ Definition recls (f : nat -> nat) (nd : node) : node :=
 Fixpoint nodup_strb (l : list str) : bool :=
   match l with [] => true | k :: l' => negb (existsb (str_eqb k) l') && nodup_strb l' end.
 Definition fields_nodupb (h : heap) : bool := forallb (fun nd => nodup_strb (map fst (fields nd))) h.
+
+(* ---- one ObjectStore over several instance() calls (fixes/C13-3.diff) ------------------------ *)
+(* executed: the pre-tasks already executed through this store; fromConfig executes a gathered
+   pre-task only when ObjectStore.set_executed answers that it had not been                       *)
+Definition not_executed (executed : list nat) (c : call) : bool :=
+  match c with Execute p => negb (memb p executed) | _ => true end.
+Definition instantiate_store (h : heap) (constructed executed : list nat) (root : nat) : option result :=
+  match instantiate h constructed root with
+  | None => None
+  | Some r => Some {| r_objects := r_objects r; r_log := filter (not_executed executed) (r_log r);
+                      r_root := r_root r |}
+  end.
